@@ -911,7 +911,13 @@ func Dyn(ruleName string, entries []DynEntry, universe []atom, domainText string
 	}
 }
 
-func runDyn(p *core.Prog, r *core.Report, ruleName string, entries []DynEntry, universe []atom, domainText string) *dynInterp {
+func runDyn(p *core.Prog, r *core.Report, ruleName string, entries []DynEntry, universe []atom, domainText string, opts ...string) *dynInterp {
+	noApplies := false
+	for _, o := range opts {
+		if o == "no-applies" {
+			noApplies = true
+		}
+	}
 	{
 		na := newNilAn(p)
 		di := &dynInterp{p: p, na: na, memo: map[string]aval{}, open: map[string]bool{}, issues: map[string]*dynIssue{}, atoms: map[string]map[string]bool{}, checked: map[ssa.Instruction]bool{}, universe: universe, dataPos: map[*ssa.Function]map[int]bool{}, reached: map[*ssa.BasicBlock]bool{}, analysed: map[*ssa.Function]bool{}}
@@ -951,6 +957,9 @@ func runDyn(p *core.Prog, r *core.Report, ruleName string, entries []DynEntry, u
 			}
 			// D-APPLIES: per implementation and atom
 			for _, vf := range na.implsByName["Validate"] {
+				if noApplies {
+					break
+				}
 				T := core.NamedOf(vf.Signature.Recv().Type())
 				if T == nil || len(vf.Params) != 2 {
 					continue
@@ -982,7 +991,6 @@ func runDyn(p *core.Prog, r *core.Report, ruleName string, entries []DynEntry, u
 		r.Count("dyn_runs", nRuns)
 		r.Count("dyn_contexts", di.ctxCount)
 		r.Count("dyn_checked_sites", len(di.checked))
-		r.Floor("dyn_checked_sites", 20)
 		var keys []string
 		for k := range di.issues {
 			keys = append(keys, k)
